@@ -77,6 +77,17 @@ pub const SITES: &[&str] = &[
     "unmanaged.close.post_sem_close",
     "unmanaged.close.pre_clear",
     "unmanaged.clean_up.pre_clear",
+    // every operation on the pools' mutex / semaphores (cfg-gated shim types in deadpool)
+    "sync.mutex.pre_lock",
+    "sync.mutex.post_unlock",
+    "sync.sem.pre_acquire",
+    "sync.sem.post_acquire",
+    "sync.sem.pre_try_acquire",
+    "sync.sem.post_try_acquire",
+    "sync.sem.pre_add_permits",
+    "sync.sem.post_add_permits",
+    "sync.sem.pre_close",
+    "sync.sem.post_close",
     // harness-owned sites (inside closures / callbacks supplied by the harness)
     "harness.closure.begin",
     "harness.closure.mid",
@@ -85,7 +96,16 @@ pub const SITES: &[&str] = &[
 ];
 
 /// Sites that lie inside a lock region of the code under test.
-pub const SITES_IN_LOCK: &[&str] = &["managed.resize.shrink_loop"];
+/// (semaphore operations are performed under the slots lock by resize / close / return)
+pub const SITES_IN_LOCK: &[&str] = &[
+    "managed.resize.shrink_loop",
+    "sync.sem.pre_try_acquire",
+    "sync.sem.post_try_acquire",
+    "sync.sem.pre_add_permits",
+    "sync.sem.post_add_permits",
+    "sync.sem.pre_close",
+    "sync.sem.post_close",
+];
 
 pub fn site_index(name: &str) -> Option<usize> {
     SITES.iter().position(|s| *s == name)
@@ -181,6 +201,26 @@ thread_local! {
         stack_size: 256 * 1024,
     });
     static QUIET: Cell<bool> = const { Cell::new(false) };
+    /// >0 while harness-internal code runs (world borrowed): schedule points must not yield
+    static SUPPRESS: Cell<u32> = const { Cell::new(0) };
+}
+
+/// Runs harness-internal code (ledger access, oracle-side pool calls such as status() or the
+/// snapshot accessor) during which no schedule point may yield.
+pub fn no_yield<R>(f: impl FnOnce() -> R) -> R {
+    struct G;
+    impl Drop for G {
+        fn drop(&mut self) {
+            SUPPRESS.with(|s| s.set(s.get() - 1));
+        }
+    }
+    SUPPRESS.with(|s| s.set(s.get() + 1));
+    let _g = G;
+    f()
+}
+
+fn suppressed() -> bool {
+    SUPPRESS.with(|s| s.get() > 0)
 }
 
 fn tls<R>(f: impl FnOnce(&mut Tls) -> R) -> R {
@@ -239,6 +279,9 @@ fn hook_point(site: &'static str) {
 
 /// Schedule point (also callable from harness-owned closures).
 pub fn point(site: &'static str) {
+    if suppressed() {
+        return;
+    }
     let do_yield = TLS.with(|t| {
         let mut t = match t.try_borrow_mut() {
             Ok(t) => t,
@@ -278,7 +321,7 @@ fn hook_lock_point(site: &'static str, would_block: &dyn Fn() -> bool) {
         return;
     }
     while would_block() {
-        if cur == CONTROLLER {
+        if cur == CONTROLLER || suppressed() {
             panic!("harness error: controller would block on a lock at {site}");
         }
         let r = suspend(Yield::LockBusy(site));
